@@ -107,6 +107,17 @@ def handleLLO (op : String) (j : Json) : Option (P Json) :=
       let check ← asCheck (fldD j "attestations")
       let env := mkEnv check []
       pure (jRes jOutcome (runOutcome env cfg seqNr n prev obs)))
+  | "llo.multi" => some (do
+      -- independent Outcome calls: the plugin instance carries no state from one call to the next
+      let cfg ← fld j "cfg" >>= asCfg
+      let check ← asCheck (fldD j "attestations")
+      let env := mkEnv check []
+      let outs ← (← getArr j "calls").mapM fun c => do
+        let seqNr ← getNat c "seqNr"
+        let prev ← fld c "prev" >>= asOutcome
+        let (n, obs) ← asObsList (fldD c "obs")
+        pure (jRes jOutcome (runOutcome env cfg seqNr n prev obs))
+      pure (Json.mkObj [("ok", .arr outs.toArray)]))
   | "llo.reports" => some (do
       let cfg ← fld j "cfg" >>= asCfg
       let seqNr ← getNat j "seqNr"
